@@ -671,6 +671,9 @@ func selftestMain() int {
 
 var raceFrameRe = regexp.MustCompile(`(?m)^  (\S+)\(\)$`)
 
+// a frame with the source file of its position line
+var raceFrameFileRe = regexp.MustCompile(`(?m)^  (\S+)\(\)\n\s+(\S+):\d+`)
+
 // attributeRaces reads the race detector's log of a chunk, derives a
 // signature (pair of top go-res frames) for each report and attaches the
 // reports to the runs in which the detector's error count went up. It
@@ -698,6 +701,7 @@ func attributeRaces(prop string, ck chunk, runs []*RunResult) (int, []string) {
 		parts := strings.Split(b, "\n\n")
 		var sig []string
 		gores, third := false, false
+		innerHarness := 0
 		for _, p := range parts {
 			if len(sig) >= 2 {
 				break
@@ -706,6 +710,20 @@ func attributeRaces(prop string, ck chunk, runs []*RunResult) (int, []string) {
 				continue
 			}
 			fs := raceFrameRe.FindAllStringSubmatch(p, -1)
+			// the function that made the access (innermost frame outside
+			// the runtime): if it is the simulator's own on both sides, the
+			// report is about simulator state, whatever called it
+			// (by source file: a closure of the library inlined into a
+			// simulator function carries the simulator's name)
+			for _, f := range raceFrameFileRe.FindAllStringSubmatch(p, -1) {
+				if strings.HasPrefix(f[1], "runtime.") || strings.HasPrefix(f[1], "internal/") {
+					continue
+				}
+				if strings.Contains(f[2], "/verif/sim/") && !strings.Contains(f[2], "/third_party/") {
+					innerHarness++
+				}
+				break
+			}
 			top := "?"
 			for _, f := range fs {
 				if strings.Contains(f[1], "github.com/jirenius/go-res") {
@@ -731,6 +749,8 @@ func attributeRaces(prop string, ck chunk, runs []*RunResult) (int, []string) {
 		sort.Strings(sig)
 		r := rep{sig: strings.Join(sig, " <-> "), text: "WARNING: DATA RACE" + firstLines(b, 70)}
 		switch {
+		case innerHarness >= 2:
+			r.kind = 2
 		case gores:
 			r.kind = 0
 		case third:
